@@ -147,6 +147,9 @@ def run(ctx):
         inputs.append(("valid", v))
         if rng.random() < 0.5:
             inputs.append(("valid-container", wrap_container(rng, v)))
+    import feedlib as fl
+    for _label, data, _jpeg in fl.synth_vardct(ctx, 6 if q else 60):
+        inputs.append(("valid-vardct", data))       # VarDCT frame + jbrd box: bases for mutation too
     base = [b for (_, b) in inputs if len(b) < 20000]
     n_mut = 1500 if q else 40000
     for _ in range(n_mut):
